@@ -79,12 +79,55 @@ pub fn run(cx: &mut Ctx) {
     }
     cx.exhaustive_blocks.push(format!("all keyed inputs of length <= {maxlen} over 2 keys x 6 barrier tails x seq + par 1..6 ({n_ex} programs)"));
 
+    // engine / generator breadth (pipe_wide.rs, pipe_injoin.rs): the fan-out domain beyond 64 (huge fan-outs in a child
+    // process under an address-space limit), wide plans (65..256 partitions), every barrier kind inside either join
+    // side, built-in Min/Max behind emptied partitions, joins whose right side is not a fresh collection
+    {
+        let xo = crate::pipe_x::XOpts::of(&o);
+        crate::pipe_wide::fanout_block(cx, &xo);
+        crate::pipe_injoin::injoin_block(cx, &crate::pipe_injoin::all_side_barriers(), cx.budget(3, 4), &xo);
+        crate::pipe_wide::minmax_block(cx, &xo);
+        crate::pipe_injoin::joinx_block(cx, &xo);
+        crate::pipe_wide::wide_block(cx, &crate::pipe_wide::WIDE_ALL, cx.budget(12, 60), &xo);
+        crate::pipe_wide::many_keys_case(cx, vec![Step::Gbk, Step::Glen], &[Mode::Seq, Mode::Par(200), Mode::Par(256)]);
+        crate::pipe_wide::many_keys_case(cx, vec![Step::CombineValues(Comb::Sum)], &[Mode::Seq, Mode::Par(129)]);
+        // `collect_par(Some(t), Some(n))` for t = 1, 2, 3: one child process per t (the first caller installs the global pool)
+        crate::pipe_wide::threads_block(cx, &xo);
+        // SCHEDULES: barrier-free programs (answers compared as exact SEQUENCES) of 24..40 rows, one row per partition
+        // and 8 partitions, under jittered closures (0..2 ms sleeps) with private pools of 2 and of 16 threads: an
+        // order-losing collect / an unordered parallel iterator shows up here at every seed
+        {
+            let mut n = 0;
+            for i in 0..cx.budget(12, 60) {
+                let len = 24 + cx.rng.below(17);
+                let src: Vec<V> = (0..len as i64).map(|j| V::pair(V::I(j % 3), V::I(j))).collect();
+                let steps = match i % 4 {
+                    0 => vec![Step::MapValues(Fn_::Add(1))],
+                    1 => vec![Step::Filter(Pred::Tt), Step::FlatMap(FlatFn::Twice)],
+                    2 => vec![Step::Values, Step::Map(Fn_::Mul(2)), Step::KeyBy(KeyFn::Kmod(2))],
+                    _ => vec![Step::MapValuesBatches(2, BatchFn::Each(Fn_::Neg)), Step::Unkey],
+                };
+                let p = Prog { shape: Shape::KV, src, steps };
+                for threads in [2usize, 16] {
+                    let jo = crate::pipe_x::XOpts { jitter_threads: threads, ..xo };
+                    crate::pipe_x::check_prog_x(cx, &p, &[crate::pipe_x::XMode::Seq, crate::pipe_x::XMode::Par(len), crate::pipe_x::XMode::Par(8)], &jo);
+                }
+                n += 1;
+            }
+            cx.notes.push(format!("schedule block: {n} barrier-free programs of 24..40 rows x par len / 8 x jittered closures x pools of 2 and 16 threads, compared as sequences"));
+        }
+    }
+
     // large partitions (above the planner's 64k rows/partition target), oracle only
     {
         let n = if cx.tier == crate::ctx::Tier::Quick { 70_001 } else { 140_003 };
         let src = large_keyed_source(n, 13);
+        let small = Prog { shape: Shape::KV, src: vec![V::pair(V::I(3), V::I(-1)), V::pair(V::I(12), V::I(-2))], steps: vec![] };
         for steps in [vec![Step::MapValues(Fn_::Add(1)), Step::Filter(Pred::Even)], vec![Step::Gbk, Step::Glen], vec![Step::CombineValues(Comb::MaxT)],
-                      vec![Step::Values, Step::CombineGlobally(Comb::Count, Some(3))]] {
+                      vec![Step::Values, Step::CombineGlobally(Comb::Count, Some(3))],
+                      // flat_map / batch / distinct / join above 64k rows
+                      vec![Step::FlatMap(FlatFn::Twice), Step::Filter(Pred::Even), Step::MapBatches(3, BatchFn::Each(Fn_::Add(1)))],
+                      vec![Step::Values, Step::Distinct], vec![Step::Join(JoinKind::Left, Box::new(small.clone())), Step::CombineValues(Comb::Count)]] {
             let p = Prog { shape: Shape::KV, src: src.clone(), steps };
             check_prog_oracle_only(cx, &p, &format!("rows={n} keys=13"), &[Mode::Seq, Mode::Par(2), Mode::Par(7)]);
         }
@@ -120,7 +163,23 @@ pub fn run(cx: &mut Ctx) {
         let p = gen_prog(&mut cx.rng, &opts);
         let all = i % 10 == 0;
         let modes = modes_for(cx, p.src.len(), all);
-        check_prog(cx, &p, &modes, &o);
+        // further collect entry points on a sample: `collect()`, `collect_par(None, None)` and (in-process; the global
+        // pool is whatever was installed first) `collect_par(Some(2), Some(n))`
+        let mut xm: Vec<crate::pipe_x::XMode> = modes.iter().map(|m| crate::pipe_x::XMode::of(*m)).collect();
+        if i % 4 == 1 {
+            xm.push(crate::pipe_x::XMode::Collect);
+            xm.push(crate::pipe_x::XMode::ParAuto);
+            xm.push(crate::pipe_x::XMode::ParT(2, 1 + cx.rng.below(5)));
+        }
+        crate::pipe_x::check_prog_x(cx, &p, &xm, &crate::pipe_x::XOpts::of(&o));
+        // jittered closures (sleeping 0..2 ms) in a 1/10 sample, under private pools of 2 and of 16 threads
+        if i % 10 == 3 {
+            for threads in [2usize, 16] {
+                let jo = crate::pipe_x::XOpts { jitter_threads: threads, ..crate::pipe_x::XOpts::of(&o) };
+                let a = *cx.rng.pick(&partition_choices(p.src.len()));
+                crate::pipe_x::check_prog_x(cx, &p, &[crate::pipe_x::XMode::Seq, crate::pipe_x::XMode::Par(a), crate::pipe_x::XMode::Par(4)], &jo);
+            }
+        }
     }
     PAR_THREADS.store(0, std::sync::atomic::Ordering::SeqCst);
     // round 3: sorted terminals, sources, composites, float aggregates (c01_x.rs)
